@@ -15,6 +15,7 @@ package main
 
 import (
 	"container/list"
+	"encoding/json"
 	"fmt"
 	"sort"
 	"strconv"
@@ -86,6 +87,15 @@ func mkEntry(tok string) (*bftpb.QuorumCertSign, int, byte, error) {
 			return nil, 0, 0, err
 		}
 		e.Sign = sg
+	case 's':
+		// the same member again, valid fresh signature, its public key spelled differently (the key field is JSON text:
+		// blanks and field order do not change the key it decodes to, nor the address derived from it)
+		sg, err := xvlib.Crypto().SignECDSA(acct(a).Pri, curID)
+		if err != nil {
+			return nil, 0, 0, err
+		}
+		e.Sign = sg
+		e.PublicKey = respell(acct(a).PubJSON)
 	case 'w':
 		e.Sign = sign(a, other(curID))
 	case 'c':
@@ -99,6 +109,27 @@ func mkEntry(tok string) (*bftpb.QuorumCertSign, int, byte, error) {
 		return nil, 0, 0, fmt.Errorf("bad kind %q", tok)
 	}
 	return e, a, kind, nil
+}
+
+// respell writes the same JSON object with other blanks and field order.
+func respell(js string) string {
+	var m map[string]interface{}
+	d := json.NewDecoder(strings.NewReader(js))
+	d.UseNumber()
+	if d.Decode(&m) != nil {
+		return js + " "
+	}
+	var ks []string
+	for k := range m {
+		ks = append(ks, k)
+	}
+	sort.Sort(sort.Reverse(sort.StringSlice(ks)))
+	var parts []string
+	for _, k := range ks {
+		v, _ := json.Marshal(m[k])
+		parts = append(parts, fmt.Sprintf(" %q : %s", k, v))
+	}
+	return "{" + strings.Join(parts, " ,") + " }"
 }
 
 func newRules() *bft.DefaultSaftyRules {
@@ -175,7 +206,7 @@ func exec(line string, out *xvlib.Out) string {
 			}
 			signs = append(signs, e)
 			kinds[kind]++
-			if (kind == 'v' || kind == 'r') && a < n {
+			if (kind == 'v' || kind == 'r' || kind == 's') && a < n {
 				multi[a]++
 				if a == col {
 					colValid = true
@@ -183,7 +214,7 @@ func exec(line string, out *xvlib.Out) string {
 					others[a] = true
 				}
 			}
-			if (kind == 'v' || kind == 'r') && a >= n {
+			if (kind == 'v' || kind == 'r' || kind == 's') && a >= n {
 				kinds['o']++
 			}
 		}
@@ -238,7 +269,7 @@ func exec(line string, out *xvlib.Out) string {
 				return "bad-op"
 			}
 			if i == 0 {
-				okFirst = (kind == 'v' || kind == 'r') && a < n
+				okFirst = (kind == 'v' || kind == 'r' || kind == 's') && a < n
 			}
 			signs = append(signs, e)
 		}
@@ -266,6 +297,9 @@ func alphabet(n int) []string {
 	a = append(a, fmt.Sprintf("%dv", n), fmt.Sprintf("%dv", n+1))
 	for i := 0; i < 2 && i < n; i++ {
 		a = append(a, fmt.Sprintf("%dr", i)) // the same member again with a different valid signature
+	}
+	if n > 1 {
+		a = append(a, "1s") // ... and with its public key spelled differently
 	}
 	for i := 0; i < 2 && i < n; i++ {
 		a = append(a, fmt.Sprintf("%dw", i), fmt.Sprintf("%dc", i), fmt.Sprintf("%dm", i))
@@ -384,6 +418,12 @@ func main() {
 			if strings.HasSuffix(es[k], "v") {
 				es2 := append(append([]string{}, es...), strings.TrimSuffix(es[k], "v")+"r")
 				run(strings.TrimSpace(fmt.Sprintf("cp %d %d %s", n, col, strings.Join(es2, " "))), true)
+				// one member fills the certificate with respelled copies of its own vote
+				es3 := []string{es[k]}
+				for len(es3) < n {
+					es3 = append(es3, strings.TrimSuffix(es[k], "v")+"s")
+				}
+				run(strings.TrimSpace(fmt.Sprintf("cp %d %d %s", n, col, strings.Join(es3, " "))), true)
 			}
 		}
 		run(line, true)
